@@ -203,6 +203,20 @@ func (w *poolWorld) apply(step int, op Op, rep *reporter) (stop bool) {
 		for _, o := range inOpts {
 			scribble(o.Value)
 		}
+	case "ResetOptionsToOwn":
+		// the input is (built from) the message's own list: its values live in the message's own value buffer
+		var in message.Options
+		if op.N == 0 {
+			in = w.a.Options()
+		} else {
+			for _, o := range w.a.Options() {
+				in = append(in, message.Option{ID: o.ID, Value: o.Value}) // caller-built list from getter results
+			}
+		}
+		w.a.ResetOptionsTo(in)
+		for _, e := range w.ma.e {
+			w.use(len(e.val))
+		}
 	case "Clone":
 		if w.b == nil {
 			w.b = pool.NewMessage(context.Background())
